@@ -381,6 +381,7 @@ pub fn minimise_case(case: &MapperCase, fails: &dyn Fn(&MapperCase) -> bool) -> 
 #[derive(Clone, Debug)]
 struct SweepCase {
   g: GenLayout,
+  max_held: usize,
 }
 
 pub struct Plan {
@@ -635,12 +636,15 @@ pub fn check(id: u32, cfg: &RunCfg, findings: &Findings) -> Report {
       16,
       sweep_cases,
       48,
-      160,
+      260,
       200,
       |src: &mut Src| {
         let (fam, allow_abs) = plan_ref.sweep_families[src.below(plan_ref.sweep_families.len())];
         let opts = LayoutOpts { allow_absorbing: allow_abs, max_alphabet: sweep_alpha };
-        loaded(gen_family(src, fam, &opts)).map(|g| SweepCase { g })
+        // siblings: now and then all five keys of the pool may be held at once
+        let five = fam == Family::Siblings && src.chance(40);
+        let opts = if five { LayoutOpts { max_alphabet: 5, ..opts } } else { opts };
+        loaded(gen_family(src, fam, &opts)).map(|g| SweepCase { g, max_held: if five { 5 } else { sc.max_held } })
       },
       |c: &Option<SweepCase>, stats: &mut Stats| {
         let c = match c {
@@ -655,6 +659,10 @@ pub fn check(id: u32, cfg: &RunCfg, findings: &Findings) -> Report {
           return Ok(());
         }
         stats.label(&format!("sweep-family:{}", c.g.family));
+        let sc = SweepCfg { max_held: c.max_held, ..sc.clone() };
+        if c.max_held > 4 {
+          stats.label("sweep-with-5-keys-held");
+        }
         let r = sweep(&c.g.layout, &c.g.alphabet, &sc, sel, id, stats, findings);
         if stats.want_sample() {
           stats.samples.push(json!({"sweep_of": layout_text(&c.g.layout), "alphabet": c.g.alphabet.iter().map(|k| key_name(*k)).collect::<Vec<_>>(), "max_held": sc.max_held, "states": r.states, "transitions": r.transitions, "exhausted": r.exhausted}));
@@ -699,7 +707,7 @@ pub fn check(id: u32, cfg: &RunCfg, findings: &Findings) -> Report {
       |src: &mut Src| {
         let e = &cat_ref[src.below(cat_ref.len())];
         let alphabet = catalogue_alphabet(src, &e.layout, 3, 3, 1);
-        SweepCase { g: GenLayout { layout: e.layout.clone(), alphabet, family: e.name.clone() } }
+        SweepCase { g: GenLayout { layout: e.layout.clone(), alphabet, family: e.name.clone() }, max_held: sc.max_held }
       },
       |c: &SweepCase, stats: &mut Stats| {
         stats.label(&format!("catalogue-sweep:{}", c.g.family));
